@@ -90,6 +90,7 @@ type vcReplayer struct {
 	late      bool
 	stepT0    time.Time // when the current event was injected
 	memChecks int
+	foreign   bool // a divergence that concerns other properties only was seen in this step
 	races     int
 	// forced interleavings of concurrent failure reports (two store updates of one record)
 	gatedSteps, gateHits int
@@ -190,13 +191,27 @@ func (r *vcReplayer) copiesOf(name string) (int, bool) {
 	return 0, false
 }
 
-func (r *vcReplayer) viol(prop, key, desc string, extra vhRec) {
+// viol records a divergence. It returns true if the divergence concerns the property this run is about (or cannot be attributed):
+// the behaviour ends there. A divergence that belongs to other properties only is recorded as well, but the remaining
+// comparisons of the step are still made (they may show something that does concern this property); the behaviour then
+// ends with the step.
+func (r *vcReplayer) viol(prop, key, desc string, extra vhRec) bool {
+	own := strings.HasPrefix(r.cfg.Prop, "G-") || prop == r.cfg.Prop
+	for _, p := range strings.Split(prop, "+") {
+		if p == r.cfg.Prop {
+			own = true
+		}
+	}
+	if !own {
+		r.foreign = true
+	}
 	rec := vhRec{"cfg": r.cfg, "history": r.hist[:r.n+1]}
 	for k, v := range extra {
 		rec[k] = v
 	}
 	s := r.hist[r.n]
 	vhViol(prop+":"+key, fmt.Sprintf("[%s] step %d (%s %s%s): %s", r.cfg.Algo, r.n, s.Act, s.B, s.P, desc), rec)
+	return own
 }
 
 // rel names the listed properties whose statement covers a divergence of the given kind (joined by "+"); a check raises an
@@ -296,8 +311,8 @@ func (r *vcReplayer) checkFaithful(sd vcSent, exp *vcSendExp) bool {
 	orig := r.w.orig[sd.Name]
 	tb := sd.Bundle
 	bad := func(key, desc string) bool {
-		r.viol("C06", "forward/"+key, fmt.Sprintf("bundle %s sent to %s: %s", sd.Name, sd.Peer, desc), vhRec{"sent_bytes": fmt.Sprintf("%x", sd.Bytes), "accepted_bytes": fmt.Sprintf("%x", r.w.origB[sd.Name])})
-		return false
+		// (false = the behaviour ends here; a divergence that only concerns another property lets the step go on)
+		return !r.viol("C06", "forward/"+key, fmt.Sprintf("bundle %s sent to %s: %s", sd.Name, sd.Peer, desc), vhRec{"sent_bytes": fmt.Sprintf("%x", sd.Bytes), "accepted_bytes": fmt.Sprintf("%x", r.w.origB[sd.Name])})
 	}
 	if len(tb.CanonicalBlocks) == 0 {
 		return bad("unparsable", "transmitted bytes do not parse as a valid bundle: "+sd.Name)
@@ -370,7 +385,7 @@ func (r *vcReplayer) checkFaithful(sd vcSent, exp *vcSendExp) bool {
 			if ser(*ocb) != ser(cb) {
 				return bad("block-changed", fmt.Sprintf("block of type %d changed", t))
 			}
-			if t == 222 && cb.BlockControlFlags.Has(bpv7.RemoveBlock) {
+			if (t == 222 || t == 223 || t == 224) && cb.BlockControlFlags.Has(bpv7.RemoveBlock) {
 				return bad("unsupported-block-not-removed", "an unsupported block flagged for removal was transmitted")
 			}
 		}
@@ -383,7 +398,7 @@ func (r *vcReplayer) checkFaithful(sd vcSent, exp *vcSendExp) bool {
 		if seenTypes[t] {
 			continue
 		}
-		if t == 222 && ocb.BlockControlFlags.Has(bpv7.RemoveBlock) {
+		if (t == 222 || t == 223 || t == 224) && ocb.BlockControlFlags.Has(bpv7.RemoveBlock) {
 			continue
 		}
 		return bad("block-lost", fmt.Sprintf("block of type %d is missing", t))
@@ -423,8 +438,10 @@ func (r *vcReplayer) collectReports(sends []vcSent) (out []vcReportExp, ok bool)
 		r.w.seenReports[idk] = true
 		ar, err := b.AdministrativeRecord()
 		if err != nil {
-			r.viol("C15", "report/undecodable", "administrative record does not decode: "+err.Error(), nil)
-			return nil, false
+			if r.viol("C15", "report/undecodable", "administrative record does not decode: "+err.Error(), nil) {
+				return nil, false
+			}
+			continue
 		}
 		sr, isSr := ar.(*bpv7.StatusReport)
 		if !isSr {
@@ -441,38 +458,52 @@ func (r *vcReplayer) collectReports(sends []vcSent) (out []vcReportExp, ok bool)
 			if oid.SourceNode == rid.SourceNode && oid.Timestamp == rid.Timestamp {
 				name = n
 				if oid != rid {
-					r.viol("C15", "report/wrong-bundle-id", fmt.Sprintf("report about %s names %v instead of %v", n, sr.RefBundle, ob.ID()), nil)
-					return nil, false
+					if r.viol("C15", "report/wrong-bundle-id", fmt.Sprintf("report about %s names %v instead of %v", n, sr.RefBundle, ob.ID()), nil) {
+						return nil, false
+					}
+					continue
 				}
 			}
 		}
 		if name == "" {
-			r.viol("C15", "report/unknown-subject", fmt.Sprintf("status report about an unknown bundle %v: %v, report bundle %v", sr.RefBundle, sr, b), nil)
-			return nil, false
+			if r.viol("C15", "report/unknown-subject", fmt.Sprintf("status report about an unknown bundle %v: %v, report bundle %v", sr.RefBundle, sr, b), nil) {
+				return nil, false
+			}
+			continue
 		}
 		subj := r.w.orig[name]
 		if b.PrimaryBlock.BundleControlFlags != bpv7.AdministrativeRecordPayload {
-			r.viol("C15", "report/flags", fmt.Sprintf("report bundle carries flags %v", b.PrimaryBlock.BundleControlFlags), nil)
-			return nil, false
+			if r.viol("C15", "report/flags", fmt.Sprintf("report bundle carries flags %v", b.PrimaryBlock.BundleControlFlags), nil) {
+				return nil, false
+			}
+			continue
 		}
 		if b.PrimaryBlock.Destination != subj.PrimaryBlock.ReportTo {
-			r.viol("C15", "report/destination", fmt.Sprintf("report about %s addressed to %v, report-to is %v", name, b.PrimaryBlock.Destination, subj.PrimaryBlock.ReportTo), nil)
-			return nil, false
+			if r.viol("C15", "report/destination", fmt.Sprintf("report about %s addressed to %v, report-to is %v", name, b.PrimaryBlock.Destination, subj.PrimaryBlock.ReportTo), nil) {
+				return nil, false
+			}
+			continue
 		}
 		if !b.PrimaryBlock.SourceNode.SameNode(bpv7.MustNewEndpointID(vcNode)) {
-			r.viol("C15", "report/source", fmt.Sprintf("report source %v is not an endpoint of this node", b.PrimaryBlock.SourceNode), nil)
-			return nil, false
+			if r.viol("C15", "report/source", fmt.Sprintf("report source %v is not an endpoint of this node", b.PrimaryBlock.SourceNode), nil) {
+				return nil, false
+			}
+			continue
 		}
 		kinds := sr.StatusInformations()
 		if len(kinds) != 1 {
-			r.viol("C15", "report/assertions", fmt.Sprintf("report asserts %d status items", len(kinds)), nil)
-			return nil, false
+			if r.viol("C15", "report/assertions", fmt.Sprintf("report asserts %d status items", len(kinds)), nil) {
+				return nil, false
+			}
+			continue
 		}
 		item := sr.StatusInformation[int(kinds[0])]
 		wantTime := subj.PrimaryBlock.BundleControlFlags.Has(bpv7.RequestStatusTime)
 		if (item.Time != 0) != wantTime || item.StatusRequested != wantTime {
-			r.viol("C15", "report/time", fmt.Sprintf("report about %s: time present=%v, requested=%v", name, item.Time != 0, wantTime), nil)
-			return nil, false
+			if r.viol("C15", "report/time", fmt.Sprintf("report about %s: time present=%v, requested=%v", name, item.Time != 0, wantTime), nil) {
+				return nil, false
+			}
+			continue
 		}
 		kind := map[bpv7.StatusInformationPos]string{bpv7.ReceivedBundle: "received", bpv7.ForwardedBundle: "forwarded", bpv7.DeliveredBundle: "delivered", bpv7.DeletedBundle: "deleted"}[kinds[0]]
 		reason := map[bpv7.StatusReportReason]string{bpv7.NoInformation: "none", bpv7.HopLimitExceeded: "hop", bpv7.LifetimeExpired: "expired", bpv7.BlockUnsupported: "unsupported"}[sr.ReportReason]
@@ -597,8 +628,9 @@ func (r *vcReplayer) run() string {
 		}
 		if err != nil {
 			if strings.HasPrefix(err.Error(), "deadlock") {
-				r.viol(r.rel("deadlock", ""), "core/"+s.Act+"/deadlock", err.Error(), vhRec{"goroutines_after_20s": w.stacks})
-				return "viol"
+				if r.viol(r.rel("deadlock", ""), "core/"+s.Act+"/deadlock", err.Error(), vhRec{"goroutines_after_20s": w.stacks}) {
+					return "viol"
+				}
 			}
 			if strings.HasPrefix(err.Error(), "timing") {
 				return "timing"
@@ -619,8 +651,9 @@ func (r *vcReplayer) run() string {
 					return "viol"
 				}
 			} else if sd.Name != "admin" && sd.Name != "metadata" {
-				r.viol("C06", "forward/unparsable", "transmitted bytes are not a valid bundle: "+sd.Name, vhRec{"bytes": fmt.Sprintf("%x", sd.Bytes)})
-				return "viol"
+				if r.viol("C06", "forward/unparsable", "transmitted bytes are not a valid bundle: "+sd.Name, vhRec{"bytes": fmt.Sprintf("%x", sd.Bytes)}) {
+					return "viol"
+				}
 			}
 		}
 		// --- sends chosen by the node
@@ -679,8 +712,9 @@ func (r *vcReplayer) run() string {
 					}
 				}
 			}
-			r.viol(r.rel(kind, b), key, desc, vhRec{"observed_sends": obsT, "kind": kind})
-			return "viol"
+			if r.viol(r.rel(kind, b), key, desc, vhRec{"observed_sends": obsT, "kind": kind}) {
+				return "viol"
+			}
 		}
 		if twin {
 			return "twin"
@@ -696,8 +730,9 @@ func (r *vcReplayer) run() string {
 			}
 			if r.cfg.Cat[sd.Name].Origin == "app" {
 				if got := int(sd.Bundle.PrimaryBlock.CreationTimestamp.SequenceNumber()); got != e.Seq {
-					r.viol("C14", "id/wire-sequence-number", fmt.Sprintf("bundle %s transmitted with sequence number %d, assigned %d", sd.Name, got, e.Seq), nil)
-					return "viol"
+					if r.viol("C14", "id/wire-sequence-number", fmt.Sprintf("bundle %s transmitted with sequence number %d, assigned %d", sd.Name, got, e.Seq), nil) {
+						return "viol"
+					}
 				}
 			}
 			if r.cfg.Algo == "binary_spray" && !e.Direct {
@@ -707,8 +742,9 @@ func (r *vcReplayer) run() string {
 					got = int(cb.Value.(*bpv7.BinarySprayBlock).RemainingCopies())
 				}
 				if got != e.Ann {
-					r.viol("C18", "spray/announced-copies", fmt.Sprintf("bundle %s to %s announces %d copies, expected %d", sd.Name, sd.Peer, got, e.Ann), nil)
-					return "viol"
+					if r.viol("C18", "spray/announced-copies", fmt.Sprintf("bundle %s to %s announces %d copies, expected %d", sd.Name, sd.Peer, got, e.Ann), nil) {
+						return "viol"
+					}
 				}
 			}
 		}
@@ -723,12 +759,14 @@ func (r *vcReplayer) run() string {
 				continue // the property speaks of replicating algorithms: DTLSR only for its broadcast bundles (unicast follows the table)
 			}
 			if a.Prev == sd.Peer {
-				r.viol("C13", "select/sent-back-to-previous-node", fmt.Sprintf("bundle %s was offered to %s, the node it came from", sd.Name, sd.Peer), nil)
-				return "viol"
+				if r.viol("C13", "select/sent-back-to-previous-node", fmt.Sprintf("bundle %s was offered to %s, the node it came from", sd.Name, sd.Peer), nil) {
+					return "viol"
+				}
 			}
 			if r.okSent[sd.Name+">"+sd.Peer] {
-				r.viol("C13", "select/sent-twice", fmt.Sprintf("bundle %s was offered to %s again after a successful transmission while still stored", sd.Name, sd.Peer), nil)
-				return "viol"
+				if r.viol("C13", "select/sent-twice", fmt.Sprintf("bundle %s was offered to %s again after a successful transmission while still stored", sd.Name, sd.Peer), nil) {
+					return "viol"
+				}
 			}
 		}
 		for _, sd := range sends {
@@ -746,8 +784,9 @@ func (r *vcReplayer) run() string {
 					}
 				}
 				if !has || got != want {
-					r.viol("C18", "spray/copy-count", fmt.Sprintf("bundle %s: the node holds %d copies (known: %v), expected %d", name, got, has, want), nil)
-					return "viol"
+					if r.viol("C18", "spray/copy-count", fmt.Sprintf("bundle %s: the node holds %d copies (known: %v), expected %d", name, got, has, want), nil) {
+						return "viol"
+					}
 				}
 			}
 		}
@@ -766,8 +805,9 @@ func (r *vcReplayer) run() string {
 			}
 			r.memChecks++
 			if vcSet(gp) != vcSet(want) {
-				r.viol(r.rel("routing-memory", name), "core/"+s.Act+"/routing-memory", fmt.Sprintf("bundle %s: the algorithm remembers {%s} as having it, expected {%s}", name, vcSet(gp), vcSet(want)), nil)
-				return "viol"
+				if r.viol(r.rel("routing-memory", name), "core/"+s.Act+"/routing-memory", fmt.Sprintf("bundle %s: the algorithm remembers {%s} as having it, expected {%s}", name, vcSet(gp), vcSet(want)), nil) {
+					return "viol"
+				}
 			}
 		}
 		// --- deliveries
@@ -776,8 +816,9 @@ func (r *vcReplayer) run() string {
 			dl = append(dl, d)
 		}
 		if vcSet(dl) != vcSet(s.Exp.Delivered) {
-			r.viol(r.rel("deliveries", ""), "core/"+s.Act+"/deliveries", fmt.Sprintf("expected local deliveries {%s}, observed {%s}", vcSet(s.Exp.Delivered), vcSet(dl)), nil)
-			return "viol"
+			if r.viol(r.rel("deliveries", ""), "core/"+s.Act+"/deliveries", fmt.Sprintf("expected local deliveries {%s}, observed {%s}", vcSet(s.Exp.Delivered), vcSet(dl)), nil) {
+				return "viol"
+			}
 		}
 		// --- reports
 		reps, ok := r.collectReports(sends)
@@ -817,16 +858,18 @@ func (r *vcReplayer) run() string {
 				}
 			}
 			parts := strings.Split(first, "/")
-			r.viol("C15", "report/"+cls+"/"+strings.Join(parts[1:], "-"), fmt.Sprintf("expected status reports {%s}, observed {%s}", vcSet(expR), vcSet(obsR)), nil)
-			return "viol"
+			if r.viol("C15", "report/"+cls+"/"+strings.Join(parts[1:], "-"), fmt.Sprintf("expected status reports {%s}, observed {%s}", vcSet(expR), vcSet(obsR)), nil) {
+				return "viol"
+			}
 		}
 		// --- store
 		var stored, pending []string
 		for name := range r.cfg.Cat {
 			found, pend, seq, dup := w.lookup(name)
 			if dup {
-				r.viol("C14", "id/stored-twice", "bundle "+name+" is filed under two IDs", nil)
-				return "viol"
+				if r.viol("C14", "id/stored-twice", "bundle "+name+" is filed under two IDs", nil) {
+					return "viol"
+				}
 			}
 			if found {
 				stored = append(stored, name)
@@ -834,8 +877,9 @@ func (r *vcReplayer) run() string {
 					pending = append(pending, name)
 				}
 				if want, ok := s.Exp.Seq[name]; ok && r.cfg.Cat[name].Origin == "app" && want != seq {
-					r.viol("C14", "id/stored-sequence-number", fmt.Sprintf("bundle %s is filed under sequence number %d, assigned %d", name, seq, want), nil)
-					return "viol"
+					if r.viol("C14", "id/stored-sequence-number", fmt.Sprintf("bundle %s is filed under sequence number %d, assigned %d", name, seq, want), nil) {
+						return "viol"
+					}
 				}
 			}
 		}
@@ -872,12 +916,17 @@ func (r *vcReplayer) run() string {
 					subject, kind = n, "stored-lost"
 				}
 			}
-			r.viol(r.rel(kind, subject), "core/"+s.Act+"/stored-"+cls, fmt.Sprintf("expected store {%s}, observed {%s}", vcSet(s.Exp.Stored), vcSet(stored)), vhRec{"kind": kind, "subject": subject})
-			return "viol"
+			if r.viol(r.rel(kind, subject), "core/"+s.Act+"/stored-"+cls, fmt.Sprintf("expected store {%s}, observed {%s}", vcSet(s.Exp.Stored), vcSet(stored)), vhRec{"kind": kind, "subject": subject}) {
+				return "viol"
+			}
 		}
 		if vcSet(pending) != vcSet(s.Exp.Pending) {
-			r.viol(r.rel("pending", ""), "core/"+s.Act+"/pending", fmt.Sprintf("expected pending {%s}, observed {%s}", vcSet(s.Exp.Pending), vcSet(pending)), nil)
-			return "viol"
+			if r.viol(r.rel("pending", ""), "core/"+s.Act+"/pending", fmt.Sprintf("expected pending {%s}, observed {%s}", vcSet(s.Exp.Pending), vcSet(pending)), nil) {
+				return "viol"
+			}
+		}
+		if r.foreign {
+			return "viol" // recorded for the properties it concerns; nothing after it can be judged
 		}
 		r.steps++
 	}
